@@ -100,7 +100,7 @@ def run(ctx):
     for tag, sz in sizes:
         exe = os.path.join(BUILD, 'defer_probe_' + tag)
         defs = ['-DURCU_VERIF'] + (['-DURCU_VERIF_DEFER_QUEUE_SIZE=%d' % sz] if sz else [])
-        rc, so, se = sh(['gcc', '-O1', '-g', '-w'] + defs + ['-I' + REPO + '/include', '-I' + REPO + '/src', os.path.join(HARN, 'seqdiff/defer.c')] + SRCS + ['-o', exe, '-lpthread'])
+        rc, so, se = sh(['gcc', '-O1', '-g', '-w', '-include', REPO + '/include/config.h'] + defs + ['-I' + REPO + '/include', '-I' + REPO + '/src', os.path.join(HARN, 'seqdiff/defer.c')] + SRCS + ['-o', exe, '-lpthread'])
         if rc: ctx.fail('harness', 'build of seqdiff/defer.c (size %s)' % tag, se[-800:]); continue
         nseq = (12 if ctx.quick() else 100) if sz else 2
         cmds = [[exe, str(300 if sz else 9000), str(ctx.seed * 1000 + i), str(i % 3 if sz else 1)] for i in range(nseq)]
